@@ -130,6 +130,8 @@ type Sim struct {
 	victim    int
 	nonBaton  int
 	epochN    int // current process incarnation; tasks of older ones are zombies
+	stallRate int // one step in stallRate starts with a stall of all runnable tasks (0 = never)
+	nStall    int
 
 	KeepLog bool
 	OnStep  func()                  // controller-side invariant hook, called at quiescence after every step
@@ -189,9 +191,17 @@ func newSim(tp *Tape) *Sim {
 		s.pctChange[i] = 1 + tp.draw(4000)
 	}
 	s.victim = tp.draw(8)
+	// CPU starvation: in some runs every runnable task is occasionally held back for a
+	// while (a loaded machine, a GC or VM pause), so that timers of sleeping tasks fire
+	// although something was runnable - otherwise a runnable task would always run
+	// before the clock moves, and "the ticker fired between these two steps" would be
+	// unreachable.
+	s.stallRate = [...]int{0, 0, 0, 200, 50, 15}[tp.draw(6)]
 	cur = s
 	return s
 }
+
+var stallDurations = [...]time.Duration{200 * time.Microsecond, 2 * time.Millisecond, 20 * time.Millisecond, 150 * time.Millisecond, 1100 * time.Millisecond, 3 * time.Second}
 
 //go:norace
 func (s *Sim) lookup(g uint64) *Task {
@@ -679,6 +689,13 @@ func (s *Sim) step(deadline time.Time) bool {
 		// real code takes time: let 1..50us pass before the next step
 		time.Sleep(time.Duration(1+s.tape.draw(50)) * time.Microsecond)
 		synctest.Wait()
+		if s.stallRate > 0 && s.tape.draw(s.stallRate) == 0 {
+			// hold every runnable task back: timers that expire meanwhile fire one after the
+			// other (the bubble quiesces between two of them) and their goroutines park too
+			s.nStall++
+			time.Sleep(stallDurations[s.tape.draw(len(stallDurations))])
+			synctest.Wait()
+		}
 		s.mu.Lock()
 		select {
 		case <-s.wake:
@@ -950,6 +967,10 @@ func (s *Sim) Blocked() []*Task {
 	}
 	return out
 }
+
+// WaitingForLock reports whether the task is blocked waiting for a sim mutex
+// (as opposed to a channel operation, a timer, ...). Controller only, at quiescence.
+func (t *Task) WaitingForLock() bool { return t.waitM != nil || t.waitRW != nil }
 
 func (t *Task) Key() string   { return t.key }
 func (t *Task) Name() string  { return t.name }
